@@ -1,36 +1,10 @@
 (* Model/Service.v — service.SignalHandler (Handle / shutdown / shutdownService)
    and service.RefreshWorker (refreshInALoop / refresh / Shutdown) as functions
    from the environment's events to the observable actions (C18). *)
-From Verif Require Import Base.GoPrim Base.Skel.
+From Verif Require Import Base.GoPrim Base.Skel Model.ExpectedSkel.
 From Coq Require Import String.
 
 (* the operation skeletons the models were written for *)
-Open Scope string_scope.
-Definition expected_ops_SignalHandler_Handle : list sk :=
-  [SPrim (POp "defer" "slogutil.RecoverAndLog"); SPrim (POp "range" "@.signal"); SLoop [SPrim (POp "call" "@.logger.InfoContext"); SPrim (POp "call" "osutil.IsShutdownSignal"); SPrim (POp "if" "osutil.IsShutdownSignal(sig)"); SIf [SPrim (POp "call" "context.WithTimeout"); SPrim (POp "defer" "cancel"); SPrim (POp "call" "@.shutdown"); SReturn] []]].
-
-Definition expected_ops_SignalHandler_shutdownService : list sk :=
-  [SPrim (POp "defer-func-begin" ""); SPrim (POp "call" "recover"); SPrim (POp "if" "v != nil"); SIf [SPrim (POp "call" "slogutil.PrintRecovered"); SPrim (POp "call" "fmt.Errorf")] []; SPrim (POp "defer-func-end" ""); SPrim (POp "call" "s.Shutdown"); SReturn].
-
-Definition expected_ops_SignalHandler_shutdown : list sk :=
-  [SPrim (POp "call" "@.logger.InfoContext"); SPrim (POp "assign" "status = osutil.ExitCodeSuccess"); SPrim (POp "for" "i >= 0"); SLoop [SPrim (POp "call" "@.shutdownService"); SPrim (POp "if" "err == nil"); SIf [SPrim (POp "branch" "continue")] []; SPrim (POp "call" "@.logger.ErrorContext"); SPrim (POp "assign" "status = osutil.ExitCodeFailure")]; SPrim (POp "call" "@.logger.InfoContext"); SReturn].
-
-Definition expected_ops_NewRefreshWorker : list sk :=
-  [SPrim (POp "make-chan" "0"); SPrim (POp "call" "cmp.Or[contextutil.Constructor]"); SPrim (POp "call" "cmp.Or[timeutil.ClockAfter]"); SPrim (POp "call" "cmp.Or[ErrorHandler]"); SReturn].
-
-Definition expected_ops_RefreshWorker_Start : list sk :=
-  [SPrim (POp "go" "@.refreshInALoop"); SReturn].
-
-Definition expected_ops_RefreshWorker_refreshInALoop : list sk :=
-  [SPrim (POp "defer" "slogutil.RecoverAndLogDefault"); SPrim (POp "call" "@.clock.Now"); SPrim (POp "call" "@.schedule.UntilNext"); SPrim (POp "for" "true"); SLoop [SPrim (POp "select" "recv @.done | recv @.clock.After(waitDur)"); SIf [SReturn] [SIf [SPrim (POp "call" "@.clock.After"); SPrim (POp "call" "@.refresh"); SPrim (POp "if" "err != nil"); SIf [SPrim (POp "call" "@.errHdlr.Handle")] []; SPrim (POp "call" "@.clock.Now"); SPrim (POp "call" "@.schedule.UntilNext")] []]]].
-
-Definition expected_ops_RefreshWorker_refresh : list sk :=
-  [SPrim (POp "call" "@.contextCons.New"); SPrim (POp "defer" "cancel"); SPrim (POp "call" "@.refr.Refresh"); SReturn].
-
-Definition expected_ops_RefreshWorker_Shutdown : list sk :=
-  [SPrim (POp "close" "@.done"); SPrim (POp "if" "@.refrOnShutdown"); SIf [SPrim (POp "call" "@.refresh"); SPrim (POp "if" "err != nil"); SIf [SPrim (POp "call" "fmt.Errorf"); SReturn] []] []; SReturn].
-
-Close Scope string_scope.
 
 (* ================= SignalHandler ================= *)
 
